@@ -5,6 +5,10 @@ impl   : the real annet code — annet.annlib.lib.{huawei,cisco}_{expand,collaps
          called directly with hand-built diff buckets, and the whole patching pipeline
          (parse_to_tree -> make_diff -> make_pre -> make_patch) with the SHIPPED huawei/cisco/nexus rulebooks.
 model  : Annet.Vlan.* (lean/AnnetModel/Model/Vlan.lean) through Glue/C11.lean.
+translation (`pregen`): lean/AnnetModel/Gen/IfaceLists.lean — the command prefixes cisco/iface.py and nexus/iface.py keep on a
+         port-channel member, and the ones NX-OS hides from the old side when a port leaves its port-channel, read off the
+         Python ASTs on every run; `C11_member_lists_as_modelled` states that they say about `switchport trunk allowed vlan`
+         rows what the model's `switchportAllowedOnMember` / `cLeafIface` assume.
 oracle : a device simulator written here (independent range reader; add / remove / clear commands executed on
          the old VLAN set) — checks final set == new set and that no common VLAN ever disappears, and that
          expand(collapse(S)) == S.  It only looks at the real code's output.
